@@ -8,6 +8,7 @@ whose recursion is explicit in the source and bounded only by CPython's recursio
 with an arbitrary statement of each kind as the loop's element and the generators replaced by the same contract.
 Since the AST is a finite tree, structural recursion terminates; .for iterates max(0, hi - lo) times (range loop)."""
 from a816.parse.codegen import _code_gen
+from a816.parse.nodes import ByteNode, LongNode, WordNode
 from a816.symbols import InternalScope
 from vf.contracts.rt import assume, check, ghost, ghost_get
 
@@ -83,3 +84,25 @@ def generate_if_selection_contract(node, resolver, defs, tok, v, defined, then_t
         check("nothing_expanded_without_else", ghost_get("n_expansions") == 0)
     if ghost_get("n_expansions") == 1:
         check("expanded_in_the_enclosing_scope", ghost_get("last_expansion_scope") is scope0)
+
+
+# ------------------------------------------------------------------------------------------------ data directives, any number of expressions (C07)
+def _data_step(code, expr, resolver, file_info, cls):
+    """one iteration of a data directive's loop, for the arbitrary expression `expr` of the list: exactly one node is appended,
+    of the directive's class, evaluating exactly that expression (so: one value per expression, in list order)"""
+    n = len(code)
+    last = code[n - 1]
+    return (n == ghost_get("code_len_before_iteration") + 1 and isinstance(last, cls) and last.value_node.expression is expr
+            and last.value_node.resolver is resolver and last.value_node.file_info is file_info)
+
+
+def step_db(code, expr, resolver, file_info):
+    return _data_step(code, expr, resolver, file_info, ByteNode)
+
+
+def step_dw(code, expr, resolver, file_info):
+    return _data_step(code, expr, resolver, file_info, WordNode)
+
+
+def step_dl(code, expr, resolver, file_info):
+    return _data_step(code, expr, resolver, file_info, LongNode)
